@@ -578,8 +578,8 @@ def _route(v, source, what):
     hdrs = [['forwarded'], ['x-forwarded-for'], ['x-real-ip'], []][source]
     lower = ['x-real-ip'] + (['x-forwarded-for'] if source == 0 else []) if source < 2 and v.choose(2, 'lower-priority-headers-too') else []
     a = abstract_request(v, always=hdrs + lower)
-    if source == 1:
-        xff = [val for n, val in a.headers if n == 'x-forwarded-for'][0]
+    for xff in [val for n, val in a.headers if n == 'x-forwarded-for']:
+        # whenever the header is present (also as the lower-priority one: a side that consulted it first would otherwise be unreached, not refuted)
         bounded_split(v, as_text(xff), ',', MAX_PIECES)  # bounded: at most MAX_PIECES addresses (C09)
     with World(v, a, hops=1, hop_fields=('src',)) as w:
         if not constructed(v, w):
